@@ -287,7 +287,9 @@ def canonicalise(tree: ast.AST) -> ast.AST:
     """Semantics-preserving normal form of the parsed source, applied before any rule looks at it, so that rules do not depend on
     two purely presentational choices:
       * `if not c: B else: A` (two-armed, no elif) is analysed as `if c: A else: B`;  `B if not c else A` as `A if c else B`;
-      * `t = <expr>` immediately followed by `return t`, with no other use of t in the function, is analysed as `return <expr>`.
+      * `t = <expr>` immediately followed by `return t`, with no other use of t in the function, is analysed as `return <expr>`;
+      * `t = <expr>` immediately followed by a statement whose first-evaluated leaf (callee / receiver / left operand) is the only
+        other occurrence of t is analysed with <expr> substituted (`_c = a.f(); x = _c.g()` as `x = a.f().g()`).
     Node positions of the original statements are kept for reports."""
 
     class IfNorm(ast.NodeTransformer):
@@ -352,6 +354,48 @@ def canonicalise(tree: ast.AST) -> ast.AST:
             i += 1
         return out
 
+    def head(e: ast.AST):
+        """the sub-expression evaluated first: follow callee / receiver / left operand down to a leaf; returns (parent, field)"""
+        parent, fld = None, None
+        while True:
+            if isinstance(e, ast.Call):
+                parent, fld, e = e, "func", e.func
+            elif isinstance(e, ast.Attribute):
+                parent, fld, e = e, "value", e.value
+            elif isinstance(e, ast.Subscript):
+                parent, fld, e = e, "value", e.value
+            elif isinstance(e, ast.BinOp):
+                parent, fld, e = e, "left", e.left
+            else:
+                return parent, fld, e
+
+    def fold_heads(stmts: list, fn: ast.AST) -> list:
+        """`t = E` directly followed by a statement whose first-evaluated leaf is the only other occurrence of t: substitute
+        (evaluation order is unchanged because the leaf is what that statement evaluates first)"""
+        out = list(stmts)
+        changed = True
+        while changed:
+            changed = False
+            for i in range(len(out) - 1):
+                a, b = out[i], out[i + 1]
+                if not (isinstance(a, ast.Assign) and len(a.targets) == 1 and isinstance(a.targets[0], ast.Name)):
+                    continue
+                t = a.targets[0].id
+                if not isinstance(b, (ast.Assign, ast.Return, ast.Expr)) or b.value is None or uses(fn, t) != 2:
+                    continue
+                if any(isinstance(x, ast.Name) and x.id == t for x in ast.walk(a.value)):
+                    continue
+                parent, fld, leaf = head(b.value)
+                if isinstance(leaf, ast.Name) and leaf.id == t and isinstance(leaf.ctx, ast.Load):
+                    if parent is None:
+                        b.value = a.value
+                    else:
+                        setattr(parent, fld, a.value)
+                    del out[i]
+                    changed = True
+                    break
+        return out
+
     for fn in [n for n in ast.walk(tree) if isinstance(n, (ast.FunctionDef, ast.AsyncFunctionDef))]:
         for n in ast.walk(fn):
             if n is not fn and isinstance(n, (ast.FunctionDef, ast.AsyncFunctionDef, ast.ClassDef)):
@@ -359,9 +403,9 @@ def canonicalise(tree: ast.AST) -> ast.AST:
             for fld in ("body", "orelse", "finalbody"):
                 v = getattr(n, fld, None)
                 if isinstance(v, list) and v and isinstance(v[0], ast.stmt):
-                    setattr(n, fld, fold(v, fn))
+                    setattr(n, fld, fold_heads(fold(v, fn), fn))
             for h in getattr(n, "handlers", []) or []:
-                h.body = fold(h.body, fn)
+                h.body = fold_heads(fold(h.body, fn), fn)
     return tree
 
 
